@@ -16,7 +16,7 @@ DEFAULTS = {
     'path_default': '/',
     'name_reg_sep': ':',
 }
-NUM_DEFAULTS = {'compile_extra_args': 0, 'module_re_flags': 0, 'name_reg_maxsplit': 1}
+NUM_DEFAULTS = {'compile_extra_args': 0, 'module_re_flags': 0, 'name_reg_maxsplit': 1, 'matcher_fresh_dict': 1}
 
 
 def _str(node):
@@ -49,6 +49,8 @@ def extract(src, problems):
                 nums[key] = int(v)
         except Exception as e:  # fail closed: report, keep the default so that Coq still type-checks
             problems.append('fact %s unrecognised in urldispatch.py: %s' % (key, e))
+            if key == 'matcher_fresh_dict':
+                nums[key] = 0   # not shown to be fresh: the purity lemma must not go through
 
     try:
         m = F.Module(src, 'pyramid/urldispatch.py')
@@ -159,6 +161,37 @@ def extract(src, problems):
                 return _str(n.value.values[1])
         raise ValueError('no "request.path_info or <default>"')
     attempt('path_default', path_default)
+
+    def fresh_dict():
+        # def matcher(path): m = match(path); if m is None: return None; d = {}; for ...: d[k] = ...; return d
+        # with no decorator on matcher or any other function of _compile_route, `match` being the compiled
+        # pattern's bound method (checked by compile_extra_args), and no cache import used in the module
+        inner = [n for n in nodes if isinstance(n, (ast.FunctionDef, ast.AsyncFunctionDef, ast.Lambda)) and n is not fn]
+        if fn.decorator_list or any(getattr(n, 'decorator_list', None) for n in inner):
+            raise ValueError('a function of _compile_route carries a decorator')
+        ms = [n for n in inner if isinstance(n, ast.FunctionDef) and n.name == 'matcher']
+        if len(ms) != 1:
+            raise ValueError('no single inner function "matcher"')
+        mt = ms[0]
+        body = mt.body
+        if not (len(body) == 5 and isinstance(body[0], ast.Assign) and isinstance(body[0].value, ast.Call)
+                and isinstance(body[0].value.func, ast.Name) and body[0].value.func.id == 'match'
+                and isinstance(body[1], ast.If) and isinstance(body[2], ast.Assign)
+                and isinstance(body[2].value, ast.Dict) and not body[2].value.keys
+                and isinstance(body[2].targets[0], ast.Name) and isinstance(body[3], ast.For)
+                and isinstance(body[4], ast.Return) and isinstance(body[4].value, ast.Name)
+                and body[4].value.id == body[2].targets[0].id):
+            raise ValueError('matcher is not "m = match(path); if ..; d = {}; for ..; return d"')
+        for n in ast.walk(m.tree):
+            if isinstance(n, (ast.Import, ast.ImportFrom)):
+                names = [a.name for a in n.names] + [getattr(n, 'module', None) or '']
+                if any('lru_cache' in x or x == 'functools' or 'cache' == x for x in names):
+                    raise ValueError('the module imports a cache decorator')
+        rets = [n for n in ast.walk(fn) if isinstance(n, ast.Return) and isinstance(n.value, ast.Tuple)]
+        if not (len(rets) == 1 and isinstance(rets[0].value.elts[0], ast.Name) and rets[0].value.elts[0].id == 'matcher'):
+            raise ValueError('_compile_route does not return (matcher, generator)')
+        return 1
+    attempt('matcher_fresh_dict', fresh_dict)
     return vals, nums
 
 
